@@ -11,20 +11,22 @@
      [e |-> "sbegin", b]  [e |-> "ser"] a serial line             [e |-> "attach", s] [e |-> "servo", s]
      [e |-> "lcdinit", d] [e |-> "lcd", d]                        [e |-> "stop", m] motor m driven to (LOW, LOW, 0)
      [e |-> "drive", m]   motor m driven otherwise                [e |-> "poll", b] sample of button b
-     [e |-> "user"]       the first statement of the loop body starts (a click handler run by the sampling code may
-                          print before that: it is part of the housekeeping)
+     [e |-> "user"]       the first statement of the loop body starts
+     [e |-> "handler"]    a click handler (user code that the injected housekeeping dispatches) runs: every button of the pass
+                          has been sampled before the first one does (the animation ticks are not ordered against handlers)
    Which pins / peripherals belong to declared devices is the scenario (constant per trace): `pins` (device pins,
    with the mode their device needs), `buttons`.                                                            *)
 EXTENDS Integers, Sequences, FiniteSets, TLC
 
-VARIABLES mode, baud, att, lcdok, stopped, phase, polled, userSeen, bad
-bvars == <<mode, baud, att, lcdok, stopped, phase, polled, userSeen, bad>>
+VARIABLES mode, baud, att, lcdok, stopped, phase, polled, userSeen, handlerSeen, bad
+bvars == <<mode, baud, att, lcdok, stopped, phase, polled, userSeen, handlerSeen, bad>>
 
 NoMode == "none"
 BInit == /\ mode = [p \in {} |-> NoMode] /\ baud = 0 /\ att = {} /\ lcdok = {} /\ stopped = {}
-         /\ phase = -1 /\ polled = {} /\ userSeen = FALSE /\ bad = ""
+         /\ phase = -1 /\ polled = {} /\ userSeen = FALSE /\ handlerSeen = FALSE /\ bad = ""
 
 ModeOf(p) == IF p \in DOMAIN mode THEN mode[p] ELSE NoMode
+IsTick(b) == b \in {"tick0", "tick1", "tick2", "tick3"}        \* housekeeping items that are animation ticks, not buttons
 
 (* first clause of the discipline that event e breaks in the current state ("" if none);
    pins = function: device pin -> required mode ("out" | "in" | "inpu" | "inany"); buttons = set of button ids *)
@@ -42,7 +44,8 @@ Breaks(e, pins, buttons) ==
       [] e.e = "lcd" -> (IF e.d \notin lcdok THEN "lcd-before-begin" ELSE "")
       [] e.e = "drive" -> (IF e.m \notin stopped THEN "motor-driven-before-safe-stop" ELSE "")
       [] e.e = "poll" -> (IF phase >= 1 /\ e.b \in polled THEN "button-sampled-twice-in-pass"
-                          ELSE IF phase >= 1 /\ userSeen THEN "button-sampled-after-user-statement" ELSE "")
+                          ELSE IF phase >= 1 /\ userSeen THEN "button-sampled-after-user-statement"
+                          ELSE IF phase >= 1 /\ handlerSeen /\ e.b \in buttons /\ ~IsTick(e.b) THEN "button-sampled-after-click-handler" ELSE "")
       [] OTHER -> ""
 
 Consume(e, pins, buttons) ==
@@ -55,6 +58,7 @@ Consume(e, pins, buttons) ==
     /\ phase' = IF e.e = "phase" THEN e.k ELSE phase
     /\ polled' = IF e.e = "phase" THEN {} ELSE IF e.e = "poll" /\ phase >= 1 THEN polled \cup {e.b} ELSE polled
     /\ userSeen' = IF e.e = "phase" THEN FALSE ELSE IF e.e = "user" THEN TRUE ELSE userSeen
+    /\ handlerSeen' = IF e.e = "phase" THEN FALSE ELSE IF e.e = "handler" THEN TRUE ELSE handlerSeen
 
 -----------------------------------------------------------------------------
 (* Declarative statement of the same discipline over a whole history h (used to model-check that the monitor
@@ -81,4 +85,5 @@ Discipline(h, pins, buttons) ==
       /\ (e.e = "poll" /\ PhaseAt(h, i) >= 1) =>
              /\ ~\E j \in (LastPhaseBefore(h, i) + 1)..(i - 1) : h[j].e = "poll" /\ h[j].b = e.b
              /\ ~\E j \in (LastPhaseBefore(h, i) + 1)..(i - 1) : h[j].e = "user"
+             /\ (e.b \in buttons /\ ~IsTick(e.b)) => ~\E j \in (LastPhaseBefore(h, i) + 1)..(i - 1) : h[j].e = "handler"
 =============================================================================
